@@ -64,6 +64,12 @@ pub fn run(suite: &str, a: &[&str]) -> Option<String> {
         "rr_contains_pt" => sb(rr(a).contains(pt(a[12], a[13]))).to_string(),
         "rr_points" => spts(rr(a).points()),
         "rr_offset" => srr(&rr(a).offset(i(a[12]))),
+        "rr_translate" => {
+            let d = pt(a[12], a[13]);
+            let mut m = rr(a);
+            m.translate_mut(d);
+            format!("{} M {}", srr(&rr(a).translate(d)), srr(&m))
+        }
         // confine + contains bitmap (margin 2) + points + bounding box in one line
         "rr_all" => {
             let r = rr(a);
